@@ -1,5 +1,7 @@
 use crate::engine::Ctx;
 
+pub mod c01;
+pub mod c02;
 pub mod c06;
 pub mod c07;
 pub mod c08;
@@ -14,6 +16,8 @@ pub mod c19;
 
 pub fn run(ctx: &Ctx) -> i32 {
     match ctx.prop.as_str() {
+        "C01" => c01::run(ctx),
+        "C02" => c02::run(ctx),
         "C06" => c06::run(ctx),
         "C07" => c07::run(ctx),
         "C08" => c08::run(ctx),
@@ -45,6 +49,8 @@ pub fn replay(ctx: &Ctx, path: &str) -> i32 {
         None => text.clone(),
     };
     match ctx.prop.as_str() {
+        "C01" => c01::replay(ctx, &body),
+        "C02" => c02::replay(ctx, &body),
         "C06" => c06::replay(ctx, &body),
         "C07" => c07::replay(ctx, &body),
         "C08" => c08::replay(ctx, &body),
